@@ -810,14 +810,68 @@ func verifAssume(cond bool) {}
 //@   modifies *msg
 
 //@ func (*Message).UnmarshalJSON :: (msg, b) (result)
-//@   props C02
+//@   props C01 C02
 //@   requires msg != nil
 //@   modifies *msg
+//@   oncall [C01,C02] encoding/json.Unmarshal[*rawEnvelope] : a_data == b
+//@   oncall [C01,C02] (*Message).populate : a_raw == argof("encoding/json.Unmarshal[*rawEnvelope]", 1).(*rawEnvelope) && *a_raw == atreturn("encoding/json.Unmarshal[*rawEnvelope]", *a_raw)  ## populate sees exactly what json.Unmarshal decoded
+//@   checks [C01,C02] @decodesonce result == nil ==> ncalls("encoding/json.Unmarshal[*rawEnvelope]") == 1 && ncalls("(*Message).populate") == 1 && nerr("encoding/json.Unmarshal[*rawEnvelope]") == 0 && nerr("(*Message).populate") == 0
+//@   checks [C01,C02] @storeswhole result == nil ==> *msg == atreturn("(*Message).populate", *argof("(*Message).populate", 0))  ## the receiver ends up holding exactly the populated value
 
+// The typed encoders (what encoding/json calls for an envelope handed to a
+// transport): each marshals exactly the raw envelope its toRawEnvelope produced -
+// the same object, with every field as toRawEnvelope left it - and returns what
+// json.Marshal returned. This ties the wire lemmas (which start from
+// toRawEnvelope) to the bytes that are really written.
 //@ func (*Message).MarshalJSON :: (msg) (result0, result1)
-//@   props C02
+//@   props C01 C02
 //@   requires msg != nil
 //@   modifies nothing
+//@   oncall [C01,C02] encoding/json.Marshal[*rawEnvelope] : a_v.(*rawEnvelope) == resultof("(*Message).toRawEnvelope", 0) && *(a_v.(*rawEnvelope)) == atreturn("(*Message).toRawEnvelope", *(a_v.(*rawEnvelope)))
+//@   checks [C01,C02] @encodesonce result1 == nil ==> ncalls("(*Message).toRawEnvelope") == 1 && ncalls("encoding/json.Marshal[*rawEnvelope]") == 1 && result0 == resultof("encoding/json.Marshal[*rawEnvelope]", 0)
+//@   checks [C01,C02] @failsifunencodable nerr("(*Message).toRawEnvelope") > 0 ==> result1 != nil
+//@ func (*RequestCommand).MarshalJSON :: (cmd) (result0, result1)
+//@   props C01 C02
+//@   requires cmd != nil
+//@   modifies nothing
+//@   oncall [C01,C02] encoding/json.Marshal[*rawEnvelope] : a_v.(*rawEnvelope) == resultof("(*RequestCommand).toRawEnvelope", 0) && *(a_v.(*rawEnvelope)) == atreturn("(*RequestCommand).toRawEnvelope", *(a_v.(*rawEnvelope)))
+//@   checks [C01,C02] @encodesonce result1 == nil ==> ncalls("(*RequestCommand).toRawEnvelope") == 1 && ncalls("encoding/json.Marshal[*rawEnvelope]") == 1 && result0 == resultof("encoding/json.Marshal[*rawEnvelope]", 0)
+//@   checks [C01,C02] @failsifunencodable nerr("(*RequestCommand).toRawEnvelope") > 0 ==> result1 != nil
+//@ func (*ResponseCommand).MarshalJSON :: (cmd) (result0, result1)
+//@   props C01 C02
+//@   requires cmd != nil
+//@   modifies nothing
+//@   oncall [C01,C02] encoding/json.Marshal[*rawEnvelope] : a_v.(*rawEnvelope) == resultof("(*ResponseCommand).toRawEnvelope", 0) && *(a_v.(*rawEnvelope)) == atreturn("(*ResponseCommand).toRawEnvelope", *(a_v.(*rawEnvelope)))
+//@   checks [C01,C02] @encodesonce result1 == nil ==> ncalls("(*ResponseCommand).toRawEnvelope") == 1 && ncalls("encoding/json.Marshal[*rawEnvelope]") == 1 && result0 == resultof("encoding/json.Marshal[*rawEnvelope]", 0)
+//@   checks [C01,C02] @failsifunencodable nerr("(*ResponseCommand).toRawEnvelope") > 0 ==> result1 != nil
+//@ func (*Session).MarshalJSON :: (s) (result0, result1)
+//@   props C01 C02
+//@   requires s != nil
+//@   modifies nothing
+//@   oncall [C01,C02] encoding/json.Marshal[*rawEnvelope] : a_v.(*rawEnvelope) == resultof("(*Session).toRawEnvelope", 0) && *(a_v.(*rawEnvelope)) == atreturn("(*Session).toRawEnvelope", *(a_v.(*rawEnvelope)))
+//@   checks [C01,C02] @encodesonce result1 == nil ==> ncalls("(*Session).toRawEnvelope") == 1 && ncalls("encoding/json.Marshal[*rawEnvelope]") == 1 && result0 == resultof("encoding/json.Marshal[*rawEnvelope]", 0)
+//@   checks [C01,C02] @failsifunencodable nerr("(*Session).toRawEnvelope") > 0 ==> result1 != nil
+
+//@ func (Notification).MarshalJSON :: (not) (result0, result1)
+//@   props C01 C02
+//@   modifies nothing
+//@   oncall [C01,C02] encoding/json.Marshal[*rawEnvelope] : a_v.(*rawEnvelope) == resultof("(*Notification).toRawEnvelope", 0) && *(a_v.(*rawEnvelope)) == atreturn("(*Notification).toRawEnvelope", *(a_v.(*rawEnvelope)))
+//@   checks [C01,C02] @encodesonce result1 == nil ==> ncalls("(*Notification).toRawEnvelope") == 1 && ncalls("encoding/json.Marshal[*rawEnvelope]") == 1 && result0 == resultof("encoding/json.Marshal[*rawEnvelope]", 0)
+//@   checks [C01,C02] @failsifunencodable nerr("(*Notification).toRawEnvelope") > 0 ==> result1 != nil
+//@ func (*DocumentContainer).MarshalJSON :: (d) (result0, result1)
+//@   props C01 C02
+//@   requires d != nil
+//@   modifies nothing
+//@   oncall [C01,C02] encoding/json.Marshal[*rawDocumentContainer] : a_v.(*rawDocumentContainer) == resultof("(*DocumentContainer).raw", 0) && *(a_v.(*rawDocumentContainer)) == atreturn("(*DocumentContainer).raw", *(a_v.(*rawDocumentContainer)))
+//@   checks [C01,C02] @encodesonce result1 == nil ==> ncalls("(*DocumentContainer).raw") == 1 && ncalls("encoding/json.Marshal[*rawDocumentContainer]") == 1 && result0 == resultof("encoding/json.Marshal[*rawDocumentContainer]", 0)
+//@   checks [C01,C02] @failsifunencodable nerr("(*DocumentContainer).raw") > 0 ==> result1 != nil
+//@ func (*DocumentCollection).MarshalJSON :: (d) (result0, result1)
+//@   props C01 C02
+//@   requires d != nil
+//@   modifies nothing
+//@   oncall [C01,C02] encoding/json.Marshal[*rawDocumentCollection] : a_v.(*rawDocumentCollection) == resultof("(*DocumentCollection).raw", 0) && *(a_v.(*rawDocumentCollection)) == atreturn("(*DocumentCollection).raw", *(a_v.(*rawDocumentCollection)))
+//@   checks [C01,C02] @encodesonce result1 == nil ==> ncalls("(*DocumentCollection).raw") == 1 && ncalls("encoding/json.Marshal[*rawDocumentCollection]") == 1 && result0 == resultof("encoding/json.Marshal[*rawDocumentCollection]", 0)
+//@   checks [C01,C02] @failsifunencodable nerr("(*DocumentCollection).raw") > 0 ==> result1 != nil
 
 //@ func (*Notification).toRawEnvelope :: (not) (result0, result1)
 //@   props C01 C02
@@ -838,9 +892,13 @@ func verifAssume(cond bool) {}
 //@   modifies *not
 
 //@ func (*Notification).UnmarshalJSON :: (not, b) (result)
-//@   props C02
+//@   props C01 C02
 //@   requires not != nil
 //@   modifies *not
+//@   oncall [C01,C02] encoding/json.Unmarshal[*rawEnvelope] : a_data == b
+//@   oncall [C01,C02] (*Notification).populate : a_raw == argof("encoding/json.Unmarshal[*rawEnvelope]", 1).(*rawEnvelope) && *a_raw == atreturn("encoding/json.Unmarshal[*rawEnvelope]", *a_raw)  ## populate sees exactly what json.Unmarshal decoded
+//@   checks [C01,C02] @decodesonce result == nil ==> ncalls("encoding/json.Unmarshal[*rawEnvelope]") == 1 && ncalls("(*Notification).populate") == 1 && nerr("encoding/json.Unmarshal[*rawEnvelope]") == 0 && nerr("(*Notification).populate") == 0
+//@   checks [C01,C02] @storeswhole result == nil ==> *not == atreturn("(*Notification).populate", *argof("(*Notification).populate", 0))  ## the receiver ends up holding exactly the populated value
 
 //@ spec fn rawCommand(r *rawEnvelope, c *Command) bool = rawBase(r, &c.Envelope) && ite(c.Method != "", r.Method == &c.Method, r.Method == nil) && ite(c.Resource != nil, r.Resource != nil && bytes(*r.Resource) == c.Resource.text && jsonValid(bytes(*r.Resource)) && r.Type == c.Type, r.Resource == nil && r.Type == nil)
 
@@ -885,9 +943,13 @@ func verifAssume(cond bool) {}
 //@   modifies *cmd
 
 //@ func (*RequestCommand).UnmarshalJSON :: (cmd, b) (result)
-//@   props C02
+//@   props C01 C02
 //@   requires cmd != nil
 //@   modifies *cmd
+//@   oncall [C01,C02] encoding/json.Unmarshal[*rawEnvelope] : a_data == b
+//@   oncall [C01,C02] (*RequestCommand).populate : a_raw == argof("encoding/json.Unmarshal[*rawEnvelope]", 1).(*rawEnvelope) && *a_raw == atreturn("encoding/json.Unmarshal[*rawEnvelope]", *a_raw)  ## populate sees exactly what json.Unmarshal decoded
+//@   checks [C01,C02] @decodesonce result == nil ==> ncalls("encoding/json.Unmarshal[*rawEnvelope]") == 1 && ncalls("(*RequestCommand).populate") == 1 && nerr("encoding/json.Unmarshal[*rawEnvelope]") == 0 && nerr("(*RequestCommand).populate") == 0
+//@   checks [C01,C02] @storeswhole result == nil ==> *cmd == atreturn("(*RequestCommand).populate", *argof("(*RequestCommand).populate", 0))  ## the receiver ends up holding exactly the populated value
 
 //@ func (*ResponseCommand).toRawEnvelope :: (cmd) (result0, result1)
 //@   props C01 C02
@@ -907,9 +969,13 @@ func verifAssume(cond bool) {}
 //@   modifies *cmd
 
 //@ func (*ResponseCommand).UnmarshalJSON :: (cmd, b) (result)
-//@   props C02
+//@   props C01 C02
 //@   requires cmd != nil
 //@   modifies *cmd
+//@   oncall [C01,C02] encoding/json.Unmarshal[*rawEnvelope] : a_data == b
+//@   oncall [C01,C02] (*ResponseCommand).populate : a_raw == argof("encoding/json.Unmarshal[*rawEnvelope]", 1).(*rawEnvelope) && *a_raw == atreturn("encoding/json.Unmarshal[*rawEnvelope]", *a_raw)  ## populate sees exactly what json.Unmarshal decoded
+//@   checks [C01,C02] @decodesonce result == nil ==> ncalls("encoding/json.Unmarshal[*rawEnvelope]") == 1 && ncalls("(*ResponseCommand).populate") == 1 && nerr("encoding/json.Unmarshal[*rawEnvelope]") == 0 && nerr("(*ResponseCommand).populate") == 0
+//@   checks [C01,C02] @storeswhole result == nil ==> *cmd == atreturn("(*ResponseCommand).populate", *argof("(*ResponseCommand).populate", 0))  ## the receiver ends up holding exactly the populated value
 
 //@ func (*rawEnvelope).envelopeType :: (re) (result0, result1)
 //@   props C01 C02
@@ -991,9 +1057,13 @@ func verifAssume(cond bool) {}
 //@   modifies *s
 
 //@ func (*Session).UnmarshalJSON :: (s, b) (result)
-//@   props C02
+//@   props C01 C02
 //@   requires s != nil
 //@   modifies *s
+//@   oncall [C01,C02] encoding/json.Unmarshal[*rawEnvelope] : a_data == b
+//@   oncall [C01,C02] (*Session).populate : a_raw == argof("encoding/json.Unmarshal[*rawEnvelope]", 1).(*rawEnvelope) && *a_raw == atreturn("encoding/json.Unmarshal[*rawEnvelope]", *a_raw)  ## populate sees exactly what json.Unmarshal decoded
+//@   checks [C01,C02] @decodesonce result == nil ==> ncalls("encoding/json.Unmarshal[*rawEnvelope]") == 1 && ncalls("(*Session).populate") == 1 && nerr("encoding/json.Unmarshal[*rawEnvelope]") == 0 && nerr("(*Session).populate") == 0
+//@   checks [C01,C02] @storeswhole result == nil ==> *s == atreturn("(*Session).populate", *argof("(*Session).populate", 0))  ## the receiver ends up holding exactly the populated value
 
 // ---- documents -------------------------------------------------------------
 
